@@ -2,6 +2,7 @@ package main
 
 import (
 	"fmt"
+	"strings"
 	"time"
 
 	"verif/harness/internal/core"
@@ -160,7 +161,7 @@ func rowsKey(r *proto.Res) string {
 }
 
 func checkC16(c *core.Ctx) []core.Floor {
-	c.Rule = "seeded workloads over 2-4 tables of 200-500 rows (quick) / 300-2000 rows (thorough) (inserts <= 40 rows, updates/deletes over <= 12 consecutive keys, full scans, filtered scans, catalog scans), dirty pages flushed after every statement; run once with the default cache (10000 pages), measuring the largest per-statement dirty set and the tree height, then with small capacities chosen above that dirty set (precondition of the property guaranteed by construction); every statement outcome, every SELECT result (with row ids) and the final contents must be identical. Distinct = (workload, capacity); non-trivial = the small run re-read at least 1000 pages from the file."
+	c.Rule = "seeded workloads over 2-4 tables of 200-500 rows (quick) / 300-2000 rows (thorough) (inserts <= 40 rows, updates/deletes over <= 12 consecutive keys, full scans, filtered scans, catalog scans), dirty pages flushed after every statement; run once with the default cache (10000 pages), measuring the largest per-statement dirty set and the tree height, then with small capacities chosen above that dirty set (precondition of the property guaranteed by construction); every statement outcome, every SELECT result (with row ids) and the final contents must be identical. Beyond the property's precondition (a statement whose dirty set EXCEEDS the capacity) one more thing is judged, on as many further runs: the statement may be refused with 'cache is full', but if it reports success its effects have to be there - every row of an accepted UPDATE changed, of an accepted DELETE gone, of an accepted INSERT present - immediately and after flush + reload. Distinct = (workload, capacity); non-trivial = the small run re-read at least 1000 pages from the file."
 	c.Assume = []string{"the default-capacity run is the reference; its own correctness is C01's business"}
 	drv := mustDriver(c, false)
 	n := 24
@@ -168,11 +169,12 @@ func checkC16(c *core.Ctx) []core.Floor {
 		n = 96
 	}
 	core.ParallelFor(n, c.Workers, func(i int) { runC16(c, drv, i) })
+	core.ParallelFor(n, c.Workers, func(i int) { runC16Saturated(c, drv, i) })
 	minReload := int64(10000)
 	if !core.Quick(c) {
 		minReload = 1000000
 	}
-	return []core.Floor{{Key: "small_cache_runs", Min: int64(n)}, {Key: "pages_reloaded_from_file", Min: minReload}, {Key: "statements_compared", Min: 1000}, {Key: "runs_db_at_least_4x_cache", Min: int64(n / 2)}, {Key: "wide_catalog_runs", Min: 4}}
+	return []core.Floor{{Key: "small_cache_runs", Min: int64(n)}, {Key: "pages_reloaded_from_file", Min: minReload}, {Key: "statements_compared", Min: 1000}, {Key: "runs_db_at_least_4x_cache", Min: int64(n / 2)}, {Key: "wide_catalog_runs", Min: 4}, {Key: "saturated_runs", Min: int64(n)}, {Key: "saturated_statements_refused", Min: 4}}
 }
 
 func runC16(c *core.Ctx, drv string, idx int) {
@@ -303,4 +305,110 @@ func runC16(c *core.Ctx, drv string, idx int) {
 		c.Eval(fmt.Sprintf("%d/%d", idx, cp), st.N >= 1000 && !bad)
 	}
 	c.Sample(3, map[string]interface{}{"workload": idx, "operations": len(opsl), "db_pages": pages, "max_dirty_per_statement": maxDirty, "tree_height": height, "capacities": caps})
+}
+
+// runC16Saturated: a cache smaller than one statement's dirty set. The
+// property says nothing about whether such a statement is accepted; but a
+// statement that reports success must have taken effect.
+func runC16Saturated(c *core.Ctx, drv string, idx int) {
+	dir := c.CaseDir("c16s")
+	defer removeAll(dir)
+	r := core.NewRand(core.SubSeed(c.Seed, "C16S", idx))
+	capPages := r.Range(8, 20)
+	nrows := r.Range(100, 240)
+	var s script
+	s.cfg(true, capPages)
+	s.k("init")
+	s.sql("CREATE DATABASE d1")
+	s.sql("USE d1")
+	s.sql("CREATE TABLE t (k INT, v VARCHAR(10))")
+	for from := 0; from < nrows; from += 12 { // 12 rows dirty about 4 pages: well within the cache
+		var p []string
+		for i := from; i < from+12 && i < nrows; i++ {
+			p = append(p, fmt.Sprintf("(%d, 'old')", i))
+		}
+		s.sql("INSERT INTO t VALUES " + strings.Join(p, ", "))
+		s.k("flush")
+	}
+	type probe struct {
+		stmt, sel int
+		kind      string
+	}
+	var probes []probe
+	add := func(kind, q string) {
+		st := s.sql(q)
+		probes = append(probes, probe{st, s.query("SELECT k, v FROM t"), kind})
+		s.k("flush")
+		// cold read
+		s.k("close")
+		s.k("session")
+		s.sql("USE d1")
+		probes = append(probes, probe{st, s.query("SELECT k, v FROM t"), kind + "_after_reload"})
+	}
+	add("update", "UPDATE t SET v = 'new'")
+	var p []string
+	for i := 0; i < 150; i++ {
+		p = append(p, fmt.Sprintf("(%d, 'ins')", 10000+i))
+	}
+	add("insert", "INSERT INTO t VALUES "+strings.Join(p, ", "))
+	add("delete", "DELETE FROM t WHERE k >= 0")
+	s.k("close")
+	out := core.RunScript(drv, dir, s.ops, 120*time.Second)
+	c.Count("saturated_runs", 1)
+	if out.Died || len(out.Res) != len(s.ops) {
+		if out.TimedOut {
+			c.Inconclusive("watchdog", "C16 saturated run exceeded the watchdog")
+			return
+		}
+		c.Violation("C16:saturated-cache:process-died:"+errClass(core.FatalTail(out.Stderr)), "process died with a cache smaller than the statement's dirty set: "+core.FatalTail(out.Stderr), map[string]interface{}{"capacity": capPages, "rows": nrows})
+		return
+	}
+	refused := map[int]bool{}
+	for _, pr := range probes {
+		st := out.Res[pr.stmt]
+		if st.Panic != "" {
+			c.Violation("C16:saturated-cache:panic:"+st.Frame, "statement panicked: "+st.Panic, map[string]interface{}{"capacity": capPages, "rows": nrows, "statement": clip(string(s.ops[pr.stmt].SQL), 120)})
+			return
+		}
+		if st.Err != "" {
+			if !refused[pr.stmt] {
+				refused[pr.stmt] = true
+				c.Count("saturated_statements_refused", 1)
+			}
+			// a refused statement may have been applied in part (outside what
+			// C16 states); everything after it is not judged
+			return
+		}
+		sel := out.Res[pr.sel]
+		if sel.Failed() {
+			c.Violation("C16:saturated-cache:select-failed", fmt.Sprintf("after an accepted %s with a cache of %d pages SELECT failed: %s%s", pr.kind, capPages, sel.Err, sel.Panic), map[string]interface{}{"capacity": capPages, "rows": nrows})
+			return
+		}
+		c.Count("saturated_statements_accepted_and_verified", 1)
+		bad := ""
+		switch {
+		case strings.HasPrefix(pr.kind, "update"):
+			old := 0
+			for _, row := range sel.Rows {
+				if len(row.Vals) == 2 && row.Vals[1].S != "new" {
+					old++
+				}
+			}
+			if old > 0 || len(sel.Rows) != nrows {
+				bad = fmt.Sprintf("UPDATE of all %d rows reported success; %d rows returned, %d still hold the old value", nrows, len(sel.Rows), old)
+			}
+		case strings.HasPrefix(pr.kind, "insert"):
+			if len(sel.Rows) != nrows+150 {
+				bad = fmt.Sprintf("INSERT of 150 rows into %d reported success; the table has %d rows", nrows, len(sel.Rows))
+			}
+		default:
+			if len(sel.Rows) != 0 {
+				bad = fmt.Sprintf("DELETE of all rows reported success; %d rows are still returned", len(sel.Rows))
+			}
+		}
+		if bad != "" {
+			c.Violation("C16:saturated-cache:accepted-statement-without-effect:"+pr.kind, fmt.Sprintf("[cache of %d pages, dirty set larger] %s", capPages, bad), map[string]interface{}{"capacity": capPages, "rows": nrows, "statement": clip(string(s.ops[pr.stmt].SQL), 120), "observed": pr.kind})
+			return
+		}
+	}
 }
